@@ -204,6 +204,19 @@ def run(ck):
     ck.ob('TAB-dedup-compares', mol.loc(sm), ign is not None and not (set(ign) & (printed | order_keys)),
           'attributes ignored when comparing molecule types {} are disjoint from what the ITP prints {} and from the atom ordering key {}'.format(
               sorted(ign or []), sorted(printed), sorted(order_keys)), key='TAB-dedup-compares|ignore')
+    n_zip = shared.zip_prefix(ck, 'vermouth/molecule.py', ['Molecule.same_nodes', 'Molecule.same_edges', 'Molecule.same_interactions', 'Molecule.share_moltype_with',
+                                                          'Molecule.__eq__', 'Interaction.__eq__', 'interaction_match', 'attributes_match'])
+    ck.extra['zip_sites_in_equality_predicates'] = n_zip
+    si = mol.func('Molecule.same_interactions')
+    ck.analysed(mol, si)
+    rets = [r for r in walk_local(si) if isinstance(r, ast.Return)]
+    whole = [c for c in walk_local(si) if isinstance(c, ast.Compare) and len(c.ops) == 1 and isinstance(c.ops[0], (ast.Eq, ast.NotEq)) and
+             sorted(u(x) for x in (c.left, c.comparators[0])) == ['other.interactions[interaction_type]', 'self.interactions[interaction_type]']]
+    keyeq = [c for c in walk_local(si) if isinstance(c, ast.Compare) and sorted(u(x) for x in (c.left, c.comparators[0])) == ['keys_other', 'keys_self']]
+    zips = [c for c in walk_local(si) if isinstance(c, ast.Call) and call_name(c) == 'zip']
+    ck.ob('TAB-dedup-compares', mol.loc(si), len(keyeq) == 1 and (len(whole) == 1 or bool(zips)),
+          'same_interactions compares the sets of non-empty categories and then the complete interaction list of every category '
+          '(whole-list comparison, or a length-guarded walk: see ZIP-prefix)', key='TAB-dedup-compares|same_interactions')
     same_nodes = mol.func('Molecule.same_nodes')
     ck.analysed(mol, same_nodes)
     src_sn = u(same_nodes)
